@@ -17,6 +17,20 @@ DYADIC = (0.5, 1.0, 1.5, 2.25, 4.0)
 
 def base_cfg(rng, cls, max_nodes=6):
     nodes, edges, starts, ends, tags = gen.digraph_cyc(rng, max_nodes=max_nodes)
+    if rng.random() < 0.15:
+        # a cycle followed by a tail of three or four edges (condensation depth >= 3 below the SCC): the cap of the cycle
+        # edges is the largest value anywhere downstream / upstream, not just next to the SCC
+        d = rng.randint(3, 4)
+        names = gen.node_names(rng, 3 + d + rng.randint(0, 1))
+        s_, a, b, tail = names[0], names[1], names[2], names[3:3 + d]
+        edges = [(s_, a), (a, b), (b, a), (b, tail[0])] + list(zip(tail[:-1], tail[1:]))
+        if len(names) > 3 + d:
+            edges = [(names[-1], s_)] + edges          # ... and a longer way in
+        if rng.random() < 0.3:
+            edges.append((a, a))
+        rng.shuffle(edges)
+        nodes = list(names); rng.shuffle(nodes)
+        starts, ends, tags = [], [], ["deep_tail"]
     cfg = {"class": cls, "nodes": nodes, "edges": [list(e) for e in edges], "starts": starts, "ends": ends,
            "graph_tags": tags, "k": rng.randint(1, 3), "weight_type": "int" if rng.random() < 0.5 else "float",
            "constraints": [], "coverage": "1", "ignore": [], "scaling": [], "flow": [], "given_weights": None,
